@@ -4,10 +4,13 @@
 (* before / after: the neighbour's NAME sorts before / after the item's within its kind (the output is ordered by kind, then name), and  *)
 (* its source text stands before / after the item's.                                                                                    *)
 EXTENDS TLC, Json, Naturals
-CONSTANTS Items, MaxNeighbours
+CONSTANTS Items, MaxNeighbours, Places
 VARIABLE c
-Init == c \in { r \in [item : Items, before : Items \cup {"none"}, after : Items \cup {"none"}] :
+\* place: same_file (the neighbours stand in the item's source file) / other_crate (folder output: the neighbours are the items of
+\* OTHER crates of the run, whose modules are generated before / after the item's module by the same backend instance)
+Init == c \in { r \in [item : Items, before : Items \cup {"none"}, after : Items \cup {"none"}, place : Places] :
                   /\ r.before # r.item /\ r.after # r.item
+                  /\ (r.before = "none" /\ r.after = "none") => r.place = "same_file"
                   /\ (r.before # "none" /\ r.after # "none") => (MaxNeighbours >= 2 /\ r.before # r.after) }
 Next == UNCHANGED c
 Emit == PrintT(<<"REPLAY", ToJson(c)>>)
